@@ -42,6 +42,61 @@ pub fn c02_header_counts_inc_total() {
     assert!(buf[..4] == raw[..4]);
 }
 
+/// the two-octet fields of the three fixed headers, as compiled (`u16::from_be_bytes(inner[a..b].try_into().unwrap())` and
+/// `inner[a..b].copy_from_slice(&v.to_be_bytes())`, which unit wirehdr substitutes by be16_of / put_be16): every getter
+/// reads the big-endian pair at its RFC position, every setter writes exactly that pair; all header contents, all values
+#[kani::proof]
+pub fn c02_wire_header_u16_fields() {
+    use domain::base::header::Header;
+    use domain::base::opt::OptHeader;
+    let raw: [u8; 21] = kani::any();
+    let v: u16 = kani::any();
+    let hi = (v >> 8) as u8;
+    let lo = v as u8;
+    let be = |a: u8, b: u8| (a as u16) * 256 + b as u16;
+    // Header: ID
+    let mut buf = raw;
+    assert!(Header::for_message_slice(&buf).id() == be(raw[0], raw[1]));
+    Header::for_message_slice_mut(&mut buf).set_id(v);
+    assert!(buf[0] == hi && buf[1] == lo && buf[2..] == raw[2..]);
+    // HeaderCounts: the four counts at message offsets 4, 6, 8, 10
+    let which: usize = kani::any();
+    kani::assume(which < 4);
+    let mut buf = raw;
+    let c = *HeaderCounts::for_message_slice(&buf);
+    let got = [c.qdcount(), c.ancount(), c.nscount(), c.arcount()];
+    let alias = [c.zocount(), c.prcount(), c.upcount(), c.adcount()];
+    assert!(got[which] == be(raw[4 + 2 * which], raw[5 + 2 * which]) && alias[which] == got[which]);
+    let alias_set: bool = kani::any();
+    let cm = HeaderCounts::for_message_slice_mut(&mut buf);
+    match (which, alias_set) {
+        (0, false) => cm.set_qdcount(v),
+        (1, false) => cm.set_ancount(v),
+        (2, false) => cm.set_nscount(v),
+        (3, false) => cm.set_arcount(v),
+        (0, true) => cm.set_zocount(v),
+        (1, true) => cm.set_prcount(v),
+        (2, true) => cm.set_upcount(v),
+        _ => cm.set_adcount(v),
+    }
+    let mut i = 0;
+    while i < 21 {
+        if i == 4 + 2 * which {
+            assert!(buf[i] == hi);
+        } else if i == 5 + 2 * which {
+            assert!(buf[i] == lo);
+        } else {
+            assert!(buf[i] == raw[i]);
+        }
+        i += 1;
+    }
+    // OptHeader: the CLASS field (octets 3 and 4 of the fixed part of the OPT record, here at 12..21)
+    let mut buf = raw;
+    assert!(OptHeader::for_record_slice(&buf[12..]).udp_payload_size() == be(raw[15], raw[16]));
+    OptHeader::for_record_slice_mut(&mut buf[12..]).set_udp_payload_size(v);
+    assert!(buf[15] == hi && buf[16] == lo && buf[..15] == raw[..15] && buf[17..] == raw[17..]);
+}
+
 fn shim_ok<const N: usize>(t: &StreamTarget<Array<N>>) -> bool {
     let s = t.as_stream_slice();
     s.len() >= 2 && u16::from_be_bytes([s[0], s[1]]) as usize == s.len() - 2 && t.as_dgram_slice().len() == s.len() - 2
